@@ -12,7 +12,7 @@ iteration durations.  What a model cannot exclude — arbitrary Python exception
 and graph libraries — is listed as an open obligation and explored on the real code by the check. -/
 
 namespace PhyModel.Props.C19
-open PhyModel PhyModel.RunLoop
+open PhyModel PhyModel.RunLoop PhyModel.C19P
 
 /-- Conditional SMC bookkeeping (`_init_swarm`, the repaired `_resample_swarm`, `_update_swarm`): for
 every particle count `N ≥ 1`, every number of data points `T ≥ 1`, every pattern of resampling
